@@ -37,6 +37,41 @@ _cb = z3.Function("commuting_blocks", z3.IntSort(), z3.BoolSort())
 _uselo = z3.Function("use_linear_operator", z3.IntSort(), z3.IntSort(), z3.BoolSort())
 
 
+CORPUS = os.path.join(os.path.dirname(os.path.abspath(__file__)), "dsl_corpus.py")
+
+
+def split_name(alg_name):
+    """`main` / `nonhermitian`: shipped algorithm; `corpus:<name>`: a program of contracts/dsl_corpus.py"""
+    return (alg_name[7:], CORPUS) if alg_name.startswith("corpus:") else (alg_name, None)
+
+
+def read_spec(alg_name):
+    nm, path = split_name(alg_name)
+    return extract.read_algorithm(nm, path=path)
+
+
+def program_inputs(alg):
+    """names that are read but neither defined as a series nor as a product"""
+    defined = {s.name for s in alg.series} | {p.name for p in alg.products}
+    used = {t for s in alg.series for _c, e in s.clauses for t, _a in extract.terms_of(e)} | {t for p in alg.products for t in p.terms}
+    return used - defined
+
+
+def program_functions(alg):
+    out = set()
+
+    def walk(e):
+        if e[0] in ("call", "callseries"):
+            out.add(e[1])
+        for x in e[1:]:
+            if isinstance(x, tuple) and x and isinstance(x[0], str):
+                walk(x)
+    for s in alg.series:
+        for _c, e in s.clauses:
+            walk(e)
+    return out
+
+
 def parsed_algorithm(alg_name):
     """Run the repository's own compiler (from the tree under check) and return its output."""
     repo = frontend.REPO
@@ -50,7 +85,16 @@ def parsed_algorithm(alg_name):
     algs = importlib.import_module("pymablock.algorithms")
     if not ap.__file__.startswith(repo):
         raise Unsupported(f"pymablock imported from {ap.__file__}, not from {repo}")
-    terms, products, outputs = ap._parse_algorithm(getattr(algs, alg_name))
+    nm, path = split_name(alg_name)
+    if path is None:
+        func = getattr(algs, nm)
+    else:
+        import importlib.util as _ilu
+        spec = _ilu.spec_from_file_location("dsl_corpus_under_check", path)
+        mod = _ilu.module_from_spec(spec)
+        spec.loader.exec_module(mod)
+        func = getattr(mod, nm)
+    terms, products, outputs = ap._parse_algorithm(func)
     return terms, products, outputs
 
 
@@ -184,6 +228,11 @@ def spec_value(eng, alg, sdef, i, j, n, ser, have_offdiag, two_block):
                 total = total + E(e, False)
             elif have_offdiag:
                 total = total + F("offdiag", E(e, False))
+        elif cond == "lower":
+            # documented reading: a condition like the others, the clause contributes on indices below the diagonal (the corpus places such a
+            # clause last, where the compiler's early return after it agrees with this reading)
+            if eng.branch(i > j):
+                total = total + E(e, False)
         else:
             raise Unsupported(f"condition {cond}")
     return total
@@ -192,7 +241,8 @@ def spec_value(eng, alg, sdef, i, j, n, ser, have_offdiag, two_block):
 def make_eval_harness(alg_name, term_name, have_offdiag, canary=False):
     def harness(eng):
         terms, products, outputs = parsed_algorithm(alg_name)
-        alg = extract.read_algorithm(alg_name)
+        alg = read_spec(alg_name)
+        inputs = program_inputs(alg) | ({"H"} if split_name(alg_name)[1] is None else set())
         sdefs = alg.series_by_name()
         term = next((t for t in terms if t.name == term_name), None)
         if term is None or term_name not in sdefs:
@@ -217,8 +267,8 @@ def make_eval_harness(alg_name, term_name, have_offdiag, canary=False):
         elif start == "diag":
             eng.assume(z3.Not(z3.And(nz, i == j)))
         two_block = z3.Bool("two_block_optimized")
-        names = set(sdefs) | {p.name for p in alg.products} | {"H"}
-        series = {nm: SSeries(nm, SI(B), SI(B), SI(N)) for nm in names}
+        names = set(sdefs) | {p.name for p in alg.products} | inputs
+        series = {nm: SSeries(nm, SI(B), SI(B), SI(N)) for nm in sorted(names)}
         lo_series = {nm: SSeries(nm, SI(B), SI(B), SI(N), sid=1000 + series[nm].sid) for nm in names}
         reads, dels, calls = [], [], []
 
@@ -247,6 +297,8 @@ def make_eval_harness(alg_name, term_name, have_offdiag, canary=False):
             "_zero_sum": Builtin("_zero_sum", zero_sum_contract), "_safe_divide": Builtin("_safe_divide", safe_divide_contract),
             "two_block_optimized": SB(two_block), "commuting_blocks": FlagVec(),
         }
+        for fname in sorted(program_functions(alg) - set(scope)):
+            scope[fname] = ScopeFn(fname, calls)
         clo = Closure(fdef, Env(None, scope), f"series_eval<{term_name}>")
         res = eng.call(clo, [SI(i), SI(j), StarTail(STup([], n))], {})
         if not isinstance(res, SObj):
@@ -262,13 +314,16 @@ def make_eval_harness(alg_name, term_name, have_offdiag, canary=False):
         for which, nm, a, b, vec in reads:
             eng.oblige(f"lo-mode:reads-from-selected-dict:{nm}", z3.BoolVal(which == "lo") == which_lo)
         # deletions: never the evaluating element, only at the requested (non-zero) order, never inputs/outputs/product factors
-        blacklist = set(outputs) | {"H"} | {t for p in alg.products for t in p.terms}
+        blacklist = set(outputs) | inputs | {t for p in alg.products for t in p.terms}
         for nm, idx in dels:
             eng.oblige(f"delete:not-blacklisted:{nm}", z3.BoolVal(nm not in blacklist),
                        detail="terms of inputs, outputs and product factors are never deleted")
             eng.oblige(f"delete:at-requested-order:{nm}", z3.BoolVal(idx.tail is not None and idx.tail.arr.get_id() == n.arr.get_id()))
-            eng.oblige(f"delete:never-start-data:{nm}", z3.Not(nz),
-                       detail="deletions happen only at non-zero order, so start values (which cannot be recomputed) are never removed")
+            dstart = next((t.start for t in terms if t.name == nm), "unknown")
+            has_start = {None: z3.BoolVal(False), "identity_data": zi(idx.items[0]) == zi(idx.items[1])}.get(dstart, z3.BoolVal(True))
+            eng.oblige(f"delete:never-start-data:{nm}", z3.Not(z3.And(nz, has_start)),
+                       detail="a deleted element is never a start value (start values cannot be recomputed): deletions happen at non-zero order, or the deleted series "
+                              "has no start value at that index")
             same = z3.And(z3.BoolVal(nm == term_name), zi(idx.items[0]) == i, zi(idx.items[1]) == j)
             eng.oblige(f"delete:not-the-element-in-flight:{nm}", z3.Not(same))
             eng.oblige(f"delete:block-or-transpose:{nm}", z3.Or(z3.And(zi(idx.items[0]) == i, zi(idx.items[1]) == j),
@@ -284,7 +339,7 @@ def make_eval_harness(alg_name, term_name, have_offdiag, canary=False):
 def unit_eval(alg_name, term_name, have_offdiag, timeout_ms=10000, canary=False):
     nm = f"algorithm_parsing:series_eval<{alg_name}:{term_name}>[offdiag={'given' if have_offdiag else 'None'}]" + ("[canary]" if canary else "")
     r = run_unit(nm, make_eval_harness(alg_name, term_name, have_offdiag, canary=canary),
-                 functions=[("algorithms", alg_name), ("algorithm_parsing", "_parse_algorithm"), ("algorithm_parsing", "_EvalTransformer"),
+                 functions=([("algorithms", alg_name)] if split_name(alg_name)[1] is None else []) + [("algorithm_parsing", "_parse_algorithm"), ("algorithm_parsing", "_EvalTransformer"),
                             ("algorithm_parsing", "_HermitianTransformer"), ("algorithm_parsing", "_LiteralTransformer"),
                             ("algorithm_parsing", "_SumTransformer"), ("algorithm_parsing", "_DivideTransformer"),
                             ("algorithm_parsing", "_FunctionTransformer"), ("algorithm_parsing", "_find_delete_candidates")],
@@ -293,7 +348,13 @@ def unit_eval(alg_name, term_name, have_offdiag, timeout_ms=10000, canary=False)
 
 
 def term_names(alg_name):
-    return [s.name for s in extract.read_algorithm(alg_name).series]
+    return [s.name for s in read_spec(alg_name).series]
+
+
+def corpus_programs():
+    import ast as _ast
+    with open(CORPUS, encoding="utf8") as f:
+        return [n.name for n in _ast.parse(f.read()).body if isinstance(n, _ast.FunctionDef)]
 
 
 # ======================================================================================
